@@ -214,7 +214,7 @@ func runC16(c *Ctx) {
 			return false
 		}
 		k, isK := cc.Call.Args[2].(*ssa.Const)
-		return isK && k.Value != nil && k.Uint64() == ^uint64(0)
+		return isK && k.Value != nil && isAllOnes(k)
 	}
 	for f := range c.readPath() {
 		flow.Instrs(f, func(in ssa.Instruction) {
